@@ -102,7 +102,7 @@ def rule_finally_placement(ctx, rep, rid: str) -> None:
 
 
 # ------------------------------------------------------------------ C07-R5
-def rule_catchable_classes(ctx, rep, rid: str, only_funcs: Optional[Set[str]] = None, floor: int = 30) -> None:
+def rule_catchable_classes(ctx, rep, rid: str, only_funcs: Optional[Set[str]] = None, floor: int = 30, only_pred=None) -> None:
     rep.rule(rid, "every error a script-reachable function raises on purpose is of a class the run loop converts into a script exception of the matching constructor (limit errors and the uncaught-exception report excepted); ReferenceError is raised only by identifier resolution", floor=floor)
     conv = converted_classes(ctx)
     if not conv:
@@ -118,6 +118,8 @@ def rule_catchable_classes(ctx, rep, rid: str, only_funcs: Optional[Set[str]] = 
         if f.module.name.startswith("regex") or f.module.name in ("parser", "lexer", "compiler"):
             continue
         if only_funcs is not None and not any(f.qual.startswith(p) for p in only_funcs):
+            continue
+        if only_pred is not None and not only_pred(f.qual):
             continue
         for n in f.own_nodes():
             if not (isinstance(n, ast.Raise) and n.exc is not None):
